@@ -712,6 +712,29 @@ func (m *repoManager) loadVersion0() error {
 		}
 	}
 
+	// Likewise drop version ids that are in no loaded repo's DAG (left behind by a repo deletion
+	// that was not followed by a save of the id maps): every UUID and every version id must name
+	// a node, and the two maps must be inverse to each other.
+	live := make(map[dvid.VersionID]struct{})
+	for _, r := range m.repos {
+		for v := range r.dag.nodes {
+			live[v] = struct{}{}
+		}
+	}
+	for v, uuid := range m.versionToUUID {
+		if _, found := live[v]; !found {
+			dvid.TimeInfof("Found version id %d (uuid %s) that is in no repo... deleting.\n", v, uuid)
+			delete(m.versionToUUID, v)
+			if m.uuidToVersion[uuid] == v {
+				delete(m.uuidToVersion, uuid)
+			}
+			saveCache = true
+		}
+	}
+	for v, uuid := range m.versionToUUID {
+		m.uuidToVersion[uuid] = v
+	}
+
 	// If we noticed missing or corrupt cache entries, save current metadata.
 	if saveCache {
 		if err := m.putCaches(); err != nil {
@@ -1043,7 +1066,10 @@ func (m *repoManager) deleteRepo(uuid dvid.UUID, passcode string) error {
 		delete(m.versionToUUID, v)
 	}
 	m.idMutex.Unlock()
-	return nil
+
+	// Persist the id maps without the deleted repo: otherwise its UUIDs and version ids are
+	// back in uuidToVersion / versionToUUID after the next restart, naming no node.
+	return m.putCaches()
 }
 
 // ---- Repo-level properties functions -------
